@@ -93,3 +93,19 @@ Theorem gp_stress_differences ez r0 r1 u0 u1 g d :
   let et := ((1 - xi g) * u0 + xi g * u1) / (r0 + xi g * (r1 - r0)) in
   srr - stt == 2 * mu d * (er - et) /\ szz - stt == 2 * mu d * (ez - et).
 Proof. unfold gp_stress. split; ring. Qed.
+
+(* given stresses: a stress-free state is in equilibrium without pressure *)
+Lemma elem_forces_s_zero gs : forall rs ss, Forall (Forall zero3) ss ->
+  Forall (fun ab => fst ab == 0 /\ snd ab == 0) (elem_forces_s gs rs ss).
+Proof.
+  induction rs as [|r0 rs IH]; intros ss Hs; [constructor|].
+  destruct rs as [|r1 rs']; [cbn; constructor|]. destruct ss as [|s ss']; [cbn; constructor|].
+  inversion Hs as [|? ? Hs0 Hs']; subst. cbn [elem_forces_s]. constructor.
+  - cbn [fst snd].
+    assert (Z : Forall (fun f => fst f == 0 /\ snd f == 0) (map (fun gd => gp_force r0 r1 (fst gd) (snd gd)) (combine gs s))).
+    { apply Forall_forall. intros f Hf. apply in_map_iff in Hf. destruct Hf as ([g x] & <- & Hin). cbn [fst snd].
+      apply gp_force_zero. rewrite Forall_forall in Hs0. apply Hs0. apply (in_combine_r _ _ _ _ Hin). }
+    split; apply sumQ_zero; apply Forall_forall; intros x Hx; apply in_map_iff in Hx; destruct Hx as (f & <- & Hf);
+      rewrite Forall_forall in Z; destruct (Z f Hf); assumption.
+  - apply (IH ss' Hs').
+Qed.
